@@ -25,6 +25,15 @@ impl RootRelativePath {
         self.inner.is_empty()
     }
 
+    /// Is this path somewhere inside the given folder (at any depth)?
+    pub fn is_inside(&self, folder: &RootRelativePath) -> bool {
+        if folder.is_root() {
+            !self.is_root()
+        } else {
+            self.inner.starts_with(&format!("{}/", folder.inner))
+        }
+    }
+
     /// Gets the full path consisting of the root and this root-relative path.
     pub fn get_full_path(&self, root: &Path) -> PathBuf {
         if self.is_root() { root.to_path_buf() } else { root.join(&self.inner) }
